@@ -171,7 +171,8 @@ def setup_django(components: dict | None = None, extra: dict | None = None, with
             {
                 "BACKEND": "django.template.backends.django.DjangoTemplates",
                 "DIRS": [],
-                "OPTIONS": {"builtins": builtins, "loaders": loaders},
+                "OPTIONS": {"builtins": builtins, "loaders": loaders,
+                            "libraries": {"verif_a": "mc.verif_lib_a", "verif_b": "mc.verif_lib_b"}},
             }
         ],
         "MIDDLEWARE": middleware,
